@@ -9,7 +9,7 @@ CORR_MODULES = ["Wire.WireCorr"]
 PREFIX = "C08"
 CASE_TYPE = "C08_case"
 HARNESS = "c08"
-KNOWN = {1: "C08-length-truncation", 2: "C08-inforeply-multicast-flag"}
+KNOWN = {1: "C08-length-truncation"}   # C08-inforeply-multicast-flag was repaired in /repo (4006ca4)
 RULE = ("a case is one RTPS message (header + 0..8 submessages of the 12 kinds, boundary-biased field values, "
         "sets of 0..256 members, inline QoS lists, payloads up to 200 kB) given to the real encoder "
         "(RtpsMessageWrite::new on structs built with the public constructors; or laid out big-endian by the "
@@ -24,9 +24,8 @@ ASSUMPTIONS = ["set members lie within base .. base+255 (what SequenceNumberSet:
                "iterator ends at such a member since 6f37365 and every consumer adds 1), so the generator never "
                "produces it as a member (C07's mutation stream feeds it to the decoder)",
                "parameter ids differ from PID_SENTINEL; at most 65536 submessages per message (MAX_SUBMESSAGES)",
-               "round trip is claimed outside the two recorded classes only: a submessage body or a padded parameter "
-               "longer than 65535 bytes (C08-length-truncation) and INFO_REPLY with the multicast flag "
-               "(C08-inforeply-multicast-flag)",
+               "round trip is claimed outside the recorded class only: a submessage body or a padded parameter "
+               "longer than 65535 bytes (C08-length-truncation)",
                "canonical form: set members ordered and de-duplicated, parameter values padded to a multiple of 4, "
                "fields excluded by flags come back as defaults (empty inline QoS / payload, TIME_INVALID)"]
 
@@ -60,7 +59,7 @@ def gen(r, tier):
         sub[1] = "1" + sub[1][1:]
         sub[5] = W.rqos(r, big=True)
         cases.append(("LE", (W.rhex(r, 2), W.rhex(r, 2), W.rhex(r, 12), [sub, W.rsub(r, "HB")])))
-    # INFO_REPLY with the multicast flag (recorded finding)
+    # INFO_REPLY with the multicast flag (regression of the repaired defect 4006ca4)
     for i in range(6):
         cases.append(("LE", (W.rhex(r, 2), W.rhex(r, 2), W.rhex(r, 12), [W.rsub(r, "IR", reply_flag=True), W.rsub(r, "HB")])))
     while len(cases) < n:
@@ -77,7 +76,9 @@ def corpus():
         ("BE", h + ([["GP", "01020304", "06070809", "5", "9223372036854775552", "9223372036854775552,9223372036854775806"], ["PD"]],)),
         # D17: 70 000-byte DATA payload, length field truncated by `as u16`
         ("LE", h + ([["DA", "0100", "01020304", "06070809", "1", "-", "aa*70000"], ["HB", "10", "01020304", "06070809", "1", "1", "1"]],)),
+        # regression of C08-inforeply-multicast-flag (fixed 4006ca4): the flag is written, both lists come back
         ("LE", h + ([["IR", "1", "1:7400:" + "00" * 16, "1:7401:" + "ef" * 16]],)),
+        ("BE", h + ([["IR", "1", "-", "2:7401:" + "ef" * 16 + ",1:0:" + "00" * 16], ["HB", "10", "01020304", "06070809", "1", "1", "1"]],)),
         # truncated length + payload bytes 0x12 (the NACK_FRAG id): the decoder panics on the tail (D17 meets D11)
         ("BE", h + ([["IT", "1", "1", "257"], ["DA", "0111", "6d1047f9", "57e324ac", "4294967297", "-", "a0a49d.12*199993.70b2d918"], ["PD"]],)),
     ]
@@ -123,12 +124,12 @@ MANIFEST = {
              "well-formed message whose submessage bodies and padded parameters fit their 16-bit length fields, "
              "decoding the encoding returns the same header and the canonical submessages, every "
              "octets_to_next_header equals the encoded body length, in both endiannesses. Outside that class the "
-             "round trip is refuted by witnesses (recorded findings). The model is tied to the code by running the "
+             "round trip is refuted by a witness (recorded finding C08-length-truncation); the INFO_REPLY multicast-flag "
+             "defect found by this check was repaired (4006ca4) and is a regression case. The model is tied to the code by running the "
              "real encoder and decoder on thousands of generated messages and comparing bytes and decoded values "
              "with the model inside Coq; the round-trip oracle is applied to the implementation's own output."),
     "note": ("Trusted: Coq kernel + vm_compute; hand model WireModel.v (checked against the code by the correspondence "
              "run on every check); harness (incl. its big-endian test writer) and comparator. Round trip is not "
-             "claimed for bodies/parameters > 65535 bytes (C08-length-truncation) nor for INFO_REPLY with the "
-             "multicast flag (C08-inforeply-multicast-flag)."),
+             "claimed for bodies/parameters > 65535 bytes (C08-length-truncation). Fixed: C08-inforeply-multicast-flag (4006ca4)."),
     "technique": "Coq proof (structural induction over messages, LE/BE codec lemmas) + differential correspondence with oracle evaluated in Coq",
 }
